@@ -45,6 +45,8 @@ type CtlConfig struct {
 	IgnoreStatus     bool     `json:"ignoreStatusChanges,omitempty"`
 	Strict           bool     `json:"strict,omitempty"`
 	Etag             bool     `json:"etag,omitempty"`
+	// SubresourcesFirst: the API server's discovery documents list "<resource>/status" before "<resource>".
+	SubresourcesFirst bool `json:"subresourcesFirst,omitempty"`
 	// RealRelatedInformers: the customize manager creates its related informers lazily
 	// through a real SharedInformerFactory over the simulator (instead of pre-seeded ones).
 	RealRelatedInformers bool `json:"realRelatedInformers,omitempty"`
